@@ -493,7 +493,7 @@ func (g *G) proof(against *didtypes.DIDDocument, authKeys []int, content []byte,
 			return id, sig, "right"
 		}
 	}
-	switch g.weighted("wrong-proof", "vm-only", 3, "not-listed", 3, "wrong-seq", 4, "prev-content", 2, "other-content", 2, "garbage", 2, "empty", 1, "wrong-id", 2, "foreign-did", 3, "empty-id", 2, "empty-doc-content", 2) {
+	switch g.weighted("wrong-proof", "vm-only", 3, "not-listed", 3, "wrong-seq", 4, "prev-content", 2, "other-content", 2, "garbage", 2, "empty", 1, "wrong-id", 2, "foreign-did", 3, "empty-id", g.bias("proof-empty-id", 2), "empty-doc-content", 2) {
 	case "empty-doc-content":
 		// a proof over the id-less (tombstone) document: it names no identifier at all
 		if len(auth) > 0 {
